@@ -16,11 +16,13 @@ from labtech.exceptions import TaskError
 from labtech.types import is_task
 
 EXEC_LOG = None  # path; set by the harness before a case runs (inherited by forked helpers)
+REAL = False     # real-backend runs: tasks sleep a little, record wall-clock spans, dying tasks kill themselves
 
 
 def log_line(line):
-    if EXEC_LOG is not None:
-        fd = os.open(EXEC_LOG, os.O_WRONLY | os.O_APPEND | os.O_CREAT)
+    path = EXEC_LOG or os.environ.get('VERIF_DAG_EXEC_LOG')  # a really spawned interpreter has no parent globals
+    if path is not None:
+        fd = os.open(path, os.O_WRONLY | os.O_APPEND | os.O_CREAT)
         try:
             os.write(fd, (line + '\n').encode())
         finally:
@@ -48,6 +50,14 @@ class RecPickleCache(PickleCache):
 
 
 def _run(self):
+    import time
+    real = REAL or bool(os.environ.get('VERIF_DAG_REAL'))
+    if real:
+        t_start = time.time()
+        if self.mode & 2:
+            import signal
+            os.kill(os.getpid(), signal.SIGKILL)
+        time.sleep(0.002 * ((self.k * 7) % 11))
     reads = []
     for d in dep_objects(self.deps):
         try:
@@ -60,6 +70,8 @@ def _run(self):
     if (self.mode & 4) and any(r is None for r in reads):
         raise TaskError(f'task {self.k}: a dependency result is unavailable')
     ctx = (self.context or {}).get('c', 0)
+    if real:
+        log_line('T %d %r %r %d %s' % (self.k, t_start, time.time(), os.getpid(), type(self).__name__))
     return 1000 * self.k + ctx + sum(7 if r is None else r for r in reads)
 
 
